@@ -39,6 +39,7 @@ func H_C11_net() {
 		second = nd.Choice("second3", 3)
 	}
 	stray := nd.Choice("stray", 2) // staking-denom coins sitting in the module account (e.g. auto-withdrawn rewards)
+	slashedNext = nd.Choice("slashed", 2) == 1 && curK != 0
 	s := buildReb(third, curK, second)
 	e := s.E
 	mod := e.Ak.GetModuleAddress(types.ModuleName)
@@ -46,7 +47,12 @@ func H_C11_net() {
 		e.Bank.Fund(mod, env.BondDenom, nd.IntRange("stray", "1", Pow12))
 	}
 	_ = e.K.QueueAssetRebalanceEvent(e.Ctx)
-	preNet := e.Bank.SupplyOf(env.BondDenom).Sub(allianceBonded(e)).Sub(e.Bank.Balance(mod, env.BondDenom))
+	// supply net of the module's own stake == supply - (bonded pool - native stake of bonded validators):
+	// native stake is constant here, so the observable is supply - bonded pool (linear, exchange-rate independent)
+	pool := func() math.Int {
+		return e.Bank.Balance(e.Ak.GetModuleAddress(stakingtypes.BondedPoolName), env.BondDenom)
+	}
+	preNet := e.Bank.SupplyOf(env.BondDenom).Sub(pool()).Sub(e.Bank.Balance(mod, env.BondDenom))
 	preUser := e.Bank.Balance(Dels[0], env.BondDenom)
 	preNotBonded := e.Bank.Balance(e.Ak.GetModuleAddress(stakingtypes.NotBondedPoolName), env.BondDenom)
 	var err error
@@ -59,16 +65,16 @@ func H_C11_net() {
 		return
 	}
 	nd.Assert(id+".module", e.Bank.Balance(mod, env.BondDenom).IsZero())
-	postNet := e.Bank.SupplyOf(env.BondDenom).Sub(allianceBonded(e))
+	postNet := e.Bank.SupplyOf(env.BondDenom).Sub(pool())
 	nd.Assert(id+".net", postNet.Equal(preNet))
 	nd.Assert(id+".users", nd.And(e.Bank.Balance(Dels[0], env.BondDenom).Equal(preUser),
 		e.Bank.Balance(e.Ak.GetModuleAddress(stakingtypes.NotBondedPoolName), env.BondDenom).Equal(preNotBonded)))
-	// the bonded pool holds exactly native + alliance stake of bonded validators
-	native := int64(0)
+	// x/staking's module-account invariant: the bonded pool holds exactly the tokens of the bonded validators
+	sumTok := math.ZeroInt()
 	for u := 0; u < s.NVals; u++ {
-		if s.Bonded[u] {
-			native += s.Native[u]
+		if val, err := e.Stk.GetValidator(e.Ctx, Vals[u]); err == nil && val.IsBonded() {
+			sumTok = sumTok.Add(val.Tokens)
 		}
 	}
-	nd.Assert(id+".pool", e.Bank.Balance(e.Ak.GetModuleAddress(stakingtypes.BondedPoolName), env.BondDenom).Equal(math.NewInt(native).Add(allianceBonded(e))))
+	nd.Assert(id+".pool", e.Bank.Balance(e.Ak.GetModuleAddress(stakingtypes.BondedPoolName), env.BondDenom).Equal(sumTok))
 }
